@@ -49,6 +49,14 @@ class StrHooks(QHooks):
         self.returns = []
         self.events = []
 
+    @staticmethod
+    def sa_bytes_of(store, obj):
+        n = g1v(store.get(obj + '.len'))
+        if not isinstance(n, int) or not 0 <= n < 256:
+            return None
+        bs = [g1v(store.get('%s.s[%d]' % (obj, k))) for k in range(n)]
+        return bytes(b & 255 for b in bs) if all(isinstance(b, int) for b in bs) else None
+
     def tracked_global(self, path):
         return True
 
@@ -236,35 +244,33 @@ def run(ctx):
     # quote2(): the local part handed to quote() is everything before the LAST @
     q2 = db.fn('quote.c', 'quote2')
 
-    class Q2(StrHooks):
+    from rules import libtab
+
+    class Q2(libtab.SAConc, StrHooks):
+        """quote2() on a concrete address: quote() is a marker that wraps the local part it is handed, so the result shows where the split was made"""
         def prim_quote(self, E, x, args):
             box = g1v(args[1])
-            ln = g1v(E.get(box[1] + '.len')) if isinstance(box, tuple) else None
-            bs = self.rd(E, ('&', box[1] + '.s[0]'), ln) if isinstance(ln, int) and 0 <= ln < 32 else None
-            self.events.append(('quote', bytes(b & 255 for b in bs).decode('latin1') if bs is not None and None not in bs else None))
-            return [Outcome(ret=fs(0)), Outcome(ret=fs(1))]
-
-        def prim_stralloc_cats(self, E, x, args):
-            s_ = self.cstr(E, g1v(args[1]))
-            self.events.append(('cats', bytes(b & 255 for b in s_).decode('latin1') if s_ is not None else None))
-            return [Outcome(ret=fs(0)), Outcome(ret=fs(1))]
+            loc_ = self.sa_bytes(E, box[1]) if isinstance(box, tuple) and box[0] == '&' else None
+            if loc_ is None:
+                return [Outcome(ret=TOP)]
+            return self._put(E, x, args, b'Q(' + loc_ + b')', False)
     badj = []
-    for addr_, loc, dom in (('a@b', 'a', '@b'), ('a@b@c', 'a@b', '@c'), ('ab', 'ab', None), ('@', '', '@'), ('x y@z', 'x y', '@z')):
+    for addr_, loc, dom in (('a@b', 'a', '@b'), ('a@b@c', 'a@b', '@c'), ('ab', 'ab', None), ('@', '', '@'), ('x y@z', 'x y', '@z'), ('a@', 'a', '@')):
         H = Q2()
         H.entry = 'quote2'
-        e = Engine(db, prog, H)
+        e = Engine(db, prog, H, max_states=60000)
         fid = e.frame_id(q2)
         st = {'%s::%s' % (fid, q2.params[0]): fs(('&', 'OUT')), '%s::%s' % (fid, q2.params[1]): fs(('&', 'A[0]'))}
         for i_, ch in enumerate(addr_ + '\0'):
             st['A[%d]' % i_] = fs(ord(ch))
         e.run(q2, st)
         rep.count_states(e.states, e.transitions)
-        qs = {ev[1] for ev in H.events if ev[0] == 'quote'}
-        cs = {ev[1] for ev in H.events if ev[0] == 'cats'}
-        if qs != {loc} or cs != ({dom} if dom is not None else set()):
-            badj.append((addr_, sorted(map(str, qs)), sorted(map(str, cs))))
+        outs_ = {H.sa_bytes_of(r_[1], 'OUT') for r_ in H.returns if r_[0] == 1}
+        want_ = ('Q(%s)%s' % (loc, dom or '')).encode('latin1')
+        if outs_ != {want_}:
+            badj.append((addr_, sorted(map(str, outs_)), want_))
     r1.check(not badj, 'quote2-splits-at-the-last-@', 'quote.c:quote2',
-             'deviations (address, local part handed to quote(), text appended after it): %s; with the FIRST @ the rest of a local part containing "@" is emitted unquoted' % badj[:3])
+             'deviations (address, result with quote(x) shown as Q(x), documented): %s; with the FIRST @ the rest of a local part containing "@" is emitted unquoted' % badj[:3])
     r1.expect_min(6)
     rep.exhaustive_rules.append('C17.1-character-class-agreement')
 
